@@ -259,7 +259,22 @@ func DecodeClaimsFromJSON(buf []byte) (IClaims, error) {
 	}
 
 	if found == nil {
-		return nil, errors.New(`could not match profile`)
+		// A profile claim that does not match any registered profile is
+		// an error; in the absence of a profile claim, the default
+		// profile (PSA_IOT_PROFILE_1) is assumed, as is done by
+		// DecodeClaimsFromCBOR.
+		for _, entry := range profilesRegister {
+			if _, ok := decoded[entry.JSONTag]; ok {
+				return nil, errors.New(`could not match profile`)
+			}
+		}
+
+		def, ok := profilesRegister[""]
+		if !ok {
+			return nil, errors.New(`could not match profile`)
+		}
+
+		found = def.Profile
 	}
 
 	claims := found.GetClaims()
